@@ -110,7 +110,7 @@ pub fn child_main() -> ! {
         })
     };
     let Ok(mut c) = std::os::unix::net::UnixStream::connect(&path) else { out("SETUP connect".into()) };
-    let _ = c.set_read_timeout(Some(Duration::from_secs(4)));
+    let _ = c.set_read_timeout(Some(Duration::from_secs(10)));
     let (head, payload): (String, Vec<u8>) = match body {
         0 => ("POST /a HTTP/1.1\r\nHost: h\r\nContent-Length: 600\r\n\r\n".into(), vec![b'x'; 600]),
         1 => ("POST /a HTTP/1.1\r\nHost: h\r\nContent-Length: 3000\r\n\r\n".into(), vec![b'y'; 3000]),
@@ -135,7 +135,7 @@ pub fn child_main() -> ! {
     let mut got = vec![];
     let mut buf = [0u8; 2048];
     let t0 = Instant::now();
-    while t0.elapsed() < Duration::from_secs(4) {
+    while t0.elapsed() < Duration::from_secs(10) {
         match c.read(&mut buf) {
             Ok(0) => break,
             Ok(n) => got.extend_from_slice(&buf[..n]),
@@ -154,6 +154,17 @@ pub fn child_main() -> ! {
 }
 
 pub fn eintr_test(case: &EintrCase) -> Verdict {
+    // a failure must repeat in a fresh child to count (the scenario runs against the clock)
+    match eintr_once(case) {
+        Verdict::Fail(first) => match eintr_once(case) {
+            Verdict::Fail(_) => Verdict::Fail(first),
+            _ => Verdict::Pass(Good::trivial().class("failed-once-not-repeated")),
+        },
+        other => other,
+    }
+}
+
+fn eintr_once(case: &EintrCase) -> Verdict {
     let Ok(exe) = std::env::current_exe() else { return Verdict::Pass(Good::trivial().class("scenario-not-set-up")) };
     let dir = format!("{}/target/tmp", vcore::report::verif_root());
     let _ = std::fs::create_dir_all(&dir);
